@@ -36,6 +36,13 @@ def run(tier, seed):
         jobs.append(("trickle%d" % cpus, ["--seed", str(rng.randrange(1 << 30)), "--cpus", str(cpus), "--noflush", "1",
                                            "--settle", str(SETTLE_MS), "--cc", "0", "--keys", "24", "--blocks", "120", "--ttl", "0",
                                            "--end", "leak", "--maximages", "30", "--steps", "14", "--trickle", "230"]))
+        # the same with threads held up for a quarter of a second now and then (every thread of the store passes
+        # scheduling points, the periodic coordinator included): a pause must not end the write-behind
+        if cpus in (2, 3, 8):
+            jobs.append(("stalled%d" % cpus, ["--seed", str(rng.randrange(1 << 30)), "--cpus", str(cpus), "--noflush", "1",
+                                               "--settle", str(SETTLE_MS), "--cc", "0", "--keys", "24", "--blocks", "120", "--ttl", "0",
+                                               "--end", "leak", "--maximages", "30", "--steps", "14", "--trickle", "230",
+                                               "--stallmask", "3", "--stallus", "260000"]))
     # a device that runs full in the background: writes that could not be allocated wait in their shard;
     # once deletes have made room they must reach the device without any further call
     for i in range(4 if tier == "quick" else 16):
